@@ -128,9 +128,12 @@ MUTANTS = [
       "        new_query.target_interventions = set(query.target_interventions)\n", ["C05"],
       "dropped re-targeting: the sub-query asks for P_x(c) instead of the c-factor P_{v-c}(c)"),
     M("f03", "trso", TR, "                get_regular_nodes(graph) - query.target_interventions.union(query.target_outcomes),\n",
-      "                get_regular_nodes(query.graphs[TARGET_DOMAIN]) - query.target_interventions.union(query.target_outcomes),\n", ["C05"],
-      "wrong graph: line 4 inside a source domain sums over the nodes of the TARGET diagram, which still contains the active "
-      "experimental variables (needs line 6 followed by line 4)"),
+      "                get_regular_nodes(query.graphs[TARGET_DOMAIN]) - query.target_interventions.union(query.target_outcomes),\n", EQ,
+      "wrong graph, unreachable: line 4 never fires inside a source domain. Line 6 is only reached when lines 2-4 found nothing to do for (X, Y): "
+      "every node outside X is an ancestor of Y avoiding X and G - X is one district; inside the domain the diagram lost Z' = Z n X, the selection "
+      "nodes that survive the separation test point into X and are made interventions by line 3, so G' - X' is the same single district; after a "
+      "line 10 the district of G[S'] - X is still S. In the target domain graphs[TARGET_DOMAIN] IS the graph. (first classified as breaking; "
+      "0 of 6 000 + 12 000 sampled queries change their output)"),
     M("f04", "trso", TR, "            if term is None:\n                return None\n            terms.append(term)\n",
       "            if term is None:\n                continue\n            terms.append(term)\n", ["C05"],
       "a c-component without estimand is silently left out of the product: an estimand is returned for unidentifiable effects"),
@@ -183,9 +186,10 @@ MUTANTS = [
       "            logger.warning(\"more than one expression were non-none\")\n            # What if more than 1 expression doesn't fail?\n"
       "            # Is it non-deterministic or can we prove it will be length 1?\n            return canonicalize(Product.safe(expressions.values()))\n", ["C05"],
       "several usable domains: their estimands are MULTIPLIED instead of one being chosen (needs >=2 domains passing line 6 with an estimand each)"),
-    M("s14", "trso", TR, "            if expression is None:\n                continue\n", "            if expression is None:\n                return None\n", OUT,
-      "early return: the first usable-looking domain without estimand ends the search (other domains and lines 8-11 are not tried): "
-      "incompleteness in the presence of declared experiments, which the property does not exclude"),
+    M("s14", "trso", TR, "            if expression is None:\n                continue\n", "            if expression is None:\n                return None\n", ["C05"],
+      "early return: the first domain that passes the separation test but yields no estimand ends the search: lines 8-11 are not tried and "
+      "'no estimand' is returned where ID has one although no experiment was usable (second sentence of the property; first classified as "
+      "incompleteness only)"),
     M("s15", "trso", TR, "            # if there are no expressions, then we move on to line 8\n            pass\n",
       "            # if there are no expressions, then we move on to line 8\n            return None\n", ["C05"],
       "early return: when experiments are declared but none is usable, 'no estimand' is returned without trying lines 8-11 "
@@ -221,9 +225,10 @@ MUTANTS = [
     M("a09", "trso", TR, "        if isinstance(quotient, Fraction):\n            return quotient.simplify()\n        return quotient\n", "        return quotient\n", EQ,
       "simplification dropped: same value, same leaves or more"),
     M("a10", "trso", TR, "        return Sum.safe(\n            activate_domain_and_interventions(expression.expression, interventions, domain),\n            expression.ranges,\n        )\n",
-      "        return Sum.safe(\n            activate_domain_and_interventions(expression.expression, interventions, domain),\n            set(expression.ranges) - interventions,\n        )\n", EQ,
-      "ranges minus the active interventions: the active variables were deleted from the domain's diagram at line 6, so no line of the "
-      "source-domain run ever sums over them"),
+      "        return Sum.safe(\n            activate_domain_and_interventions(expression.expression, interventions, domain),\n            set(expression.ranges) - interventions,\n        )\n", OUT,
+      "ranges minus the active interventions: the active variables were deleted from the domain's diagram at line 6, so no line of a "
+      "source-domain run ever sums over them and no estimand changes; only a DIRECT call of the helper with a Sum that ranges over an active "
+      "variable differs (the harness's helper stream does that and flags it against the meaning of the operation)"),
     # ================================================================= line 9 / line 10
     M("c01", "trso", TR, "        for node in query.graphs[query.domain].topological_sort()\n        if not is_transport_node(node)\n    ]\n    ordering_set = set(ordering)\n    my_product: Expression = One()\n",
       "        for node in query.graphs[query.domain].topological_sort()\n    ]\n    ordering_set = set(ordering)\n    my_product: Expression = One()\n", ["C05", "C06"],
@@ -242,8 +247,11 @@ MUTANTS = [
     M("c07", "trso", TR, "        pre_node = set(ordering[:i])\n", "        pre_node = set(ordering[: i + 1])\n", ["C05"],
       "off by one: the node itself is counted among its predecessors"),
     M("c08", "trso", TR, "    new_query.target_interventions = query.target_interventions.intersection(district)\n",
-      "    new_query.target_interventions = set(query.target_interventions)\n", ["C05"],
-      "dropped restriction: interventions outside the district survive line 10 although their nodes left the graph"),
+      "    new_query.target_interventions = set(query.target_interventions)\n", EQ,
+      "dropped restriction: interventions outside the district survive line 10 although their nodes left the graph - and are inert: after line "
+      "10 no line 6 follows (no experiments left in the target domain, active interventions inside a source domain), X n S' is never empty "
+      "(so line 1 is not affected), and every other use of X is a difference / deletion / intersection with nodes of the current graph "
+      "(first classified as breaking; 0 of 18 000 sampled queries change their output)"),
     M("c09", "trso", TR, "    new_query.graphs[query.domain] = query.graphs[query.domain].subgraph(district)\n",
       "    new_query.graphs[query.domain] = query.graphs[TARGET_DOMAIN].subgraph(district)\n", EQ,
       "wrong graph, same induced subgraph: a district contains no selection node and the diagrams differ only in selection nodes"),
@@ -274,8 +282,9 @@ MUTANTS = [
     M("m04", "trso", TR, "        distribution=Distribution.safe(graph.nodes()),\n    )\n    trso_query", "        distribution=Distribution.safe(graph.nodes() - target_interventions),\n    )\n    trso_query", ["C05"],
       "the initial distribution is the joint of V - X: conditionals on X become marginals"),
     M("m05", "trso", TR, "        surrogate_interventions=transport_query.surrogate_interventions,\n    )\n    return trso(trso_query)\n",
-      "        surrogate_interventions={k: v for k, v in transport_query.surrogate_interventions.items() if v},\n    )\n    return trso(trso_query)\n", EQ,
-      "domains without experiment are not offered to line 6: they never pass its first test"),
+      "        surrogate_interventions={k: v for k, v in transport_query.surrogate_interventions.items() if v},\n    )\n    return trso(trso_query)\n", ["C05"],
+      "domains without experiment are dropped from the experiment dictionary but not from the diagrams: line 6 looks every diagram's domain up "
+      "and raises KeyError (needs a declared domain with Z = {} and a run that reaches line 6) - first classified as equivalent"),
     # ================================================================= C06: the places that label terms (other algorithms)
     M("v01", "vocab", IDS, "        return P(child | ordering[:index])\n", "        return P(child @ ordering[:index]) if index else P(child)\n", ["C06"],
       "ID: the predecessors become intervention subscripts instead of conditions"),
